@@ -186,6 +186,11 @@ def parse_with_formats(date_string, date_formats, settings):
         except ValueError:
             continue
         else:
+            if not ("%y" in date_format or "%Y" in date_format):
+                # before the day is completed: its month length depends on the year
+                today = datetime.today()
+                date_obj = date_obj.replace(year=today.year)
+
             missing_month = not any(m in date_format for m in ["%m", "%b", "%B"])
             missing_day = "%d" not in date_format
             if missing_month and missing_day:
@@ -200,10 +205,6 @@ def parse_with_formats(date_string, date_formats, settings):
             elif missing_day:
                 period = "month"
                 date_obj = set_correct_day_from_settings(date_obj, settings)
-
-            if not ("%y" in date_format or "%Y" in date_format):
-                today = datetime.today()
-                date_obj = date_obj.replace(year=today.year)
 
             date_obj = apply_timezone_from_settings(date_obj, settings)
 
